@@ -222,6 +222,22 @@ pub open spec fn pd_scaled(hs1: Seq<F>, h: Seq<F>, st: Seq<F>, zt: Seq<F>, s: Se
 // dual scaling: Hs = mu*H, entry for entry of the packed triangle
 pub open spec fn dual_scaled(hs1: Seq<F>, h: Seq<F>, mu: F) -> bool { forall|k: int| 0 <= k < 6 ==> #[trigger] hs1[k] == f_mul(mu, h[k]) }
 
+// ------------------------------------------------------------------ the scalar iterations (termination and panic-freedom only)
+// newton_raphson_onesided (nonsymmetric_common.rs): at most 100 passes, whatever the two closures return
+//@fn file=src/solver/core/cones/nonsymmetric_common.rs name=newton_raphson_onesided rules=R1,R25 ret=r
+//@contract
+    requires forall|x: F| #![trigger f0.requires((x,))] f0.requires((x,)), forall|x: F| #![trigger f1.requires((x,))] f1.requires((x,)),
+//@loop 1
+        invariant 0 <= iter <= 100,
+            forall|x: F| #![trigger f0.requires((x,))] f0.requires((x,)), forall|x: F| #![trigger f1.requires((x,))] f1.requires((x,)),
+        decreases 100 - iter,
+//@end
+// _wright_omega (expcone.rs): LEFT OUT as a body (its Taylor coefficients are computed in raw f64, `1. / 16.0`, and vstd puts preconditions
+// on f64 division that cannot be discharged here).  Stand-in, ASSUMED: the documented panic ("argument not in supported range" for z < 0)
+// is the precondition; the value is the uninterpreted symbol f_wright_omega(z); the loop is `for _ in 0..2` (terminates).
+pub uninterp spec fn f_wright_omega(z: F) -> F;
+#[verifier::external_body] fn _wright_omega(z: F) -> (r: F) requires !f_lt(z, f_zero()), ensures r == f_wright_omega(z), { unimplemented!() }
+
 // ------------------------------------------------------------------ ExponentialCone (cones/expcone.rs)
 //@struct file=src/solver/core/cones/expcone.rs name=ExponentialCone
 // the central point of the exponential cone (documented in unit_initialization): s = z = this
@@ -252,10 +268,27 @@ pub open spec fn exp_dual_hess(z: Seq<F>, a: int, b: int) -> F {
     else { f_div(f_add(f_sub(rr, f_mul(z[0], r)), f_mul(z[0], z[0])), f_mul(f_mul(rr, z[2]), z[2])) }
 }
 
-pub uninterp spec fn exp_gradient_primal(s: Seq<F>) -> Seq<F>;
+// the argument handed to the Wright omega function by barrier_primal and gradient_primal: 1 - s0/s1 - log(s1/s2)
+pub open spec fn exp_omega_arg(s: Seq<F>) -> F { f_sub(f_sub(f_one(), f_div(s[0], s[1])), logsafe_spec(f_div(s[1], s[2]))) }
+// primal gradient g(s) (expcone.rs), omega = W(1 - s0/s1 - log(s1/s2))
+pub open spec fn exp_gradient_primal(s: Seq<F>) -> Seq<F> {
+    let om = f_wright_omega(exp_omega_arg(s));
+    let g0 = f_div(f_one(), f_mul(f_sub(om, f_one()), s[1]));
+    seq3(g0,
+         f_sub(f_add(g0, f_mul(g0, logsafe_spec(f_div(f_mul(om, s[1]), s[2])))), f_div(f_one(), s[1])),
+         f_div(om, f_mul(f_sub(f_one(), om), s[2])))
+}
 pub uninterp spec fn exp_higher_correction(h: Seq<F>, z: Seq<F>, ds: Seq<F>, v: Seq<F>) -> Seq<F>;
-pub uninterp spec fn exp_barrier_primal(s: Seq<F>) -> F;
-pub uninterp spec fn exp_barrier_dual(z: Seq<F>) -> F;
+// Primal barrier (expcone.rs): f(s) = -2 log(s1) - log(s2) - log((1 - w)^2 / w) - 3,  w = W(1 - s0/s1 - log(s1/s2))
+pub open spec fn exp_barrier_primal(s: Seq<F>) -> F {
+    let om = f_wright_omega(exp_omega_arg(s));
+    let w2 = f_div(f_mul(f_sub(om, f_one()), f_sub(om, f_one())), om);
+    f_sub(f_sub(f_sub(f_neg(logsafe_spec(w2)), f_mul(logsafe_spec(s[1]), lit2())), logsafe_spec(s[2])), lit3())
+}
+// Dual barrier (expcone.rs): f*(z) = -log(z1 - z0 - z0*log(z2/-z0)) - log(-z0) - log(z2), the last two logarithms taken as one, log(-z2*z0)
+pub open spec fn exp_barrier_dual(z: Seq<F>) -> F {
+    f_sub(f_neg(logsafe_spec(f_mul(f_neg(z[2]), z[0]))), logsafe_spec(f_sub(f_sub(z[1], z[0]), f_mul(z[0], exp_l(z)))))
+}
 impl ExponentialCone<F> {
     // ASSUMED callees (Newton / Wright-omega iterations and the third-order correction): the results are uninterpreted functions of
     // exactly what the bodies read (by inspection: gradient_primal and the barriers read only their argument, higher_correction reads
@@ -266,15 +299,21 @@ impl ExponentialCone<F> {
     pub open spec fn barrier_dual_spec(&self, z: Seq<F>) -> F { exp_barrier_dual(z) }
     // the fields that are parameters of the cone (none here; PowerCone: alpha)
     pub open spec fn params_eq(&self, o: Self) -> bool { true }
-    #[verifier::external_body] pub fn gradient_primal(&self, s: &[F]) -> (r: [F; 3])
-        requires s@.len() == 3, ensures r@ == self.gradient_primal_spec(s@), { unimplemented!() }
+    // what gradient_primal / barrier_primal need in order not to hit the documented panic of _wright_omega
+    pub open spec fn primal_pre(&self, s: Seq<F>) -> bool { !f_lt(exp_omega_arg(s), f_zero()) }
     #[verifier::external_body] pub fn higher_correction(&mut self, eta: &mut [F], ds: &[F], v: &[F])
         requires old(eta)@.len() == 3, ds@.len() == 3, v@.len() == 3,
         ensures *final(self) == *old(self), final(eta)@.len() == 3, final(eta)@ == old(self).higher_correction_spec(ds@, v@), { unimplemented!() }
-    #[verifier::external_body] pub fn barrier_primal(&mut self, s: &[F]) -> (r: F)
-        requires s@.len() == 3, ensures *final(self) == *old(self), r == old(self).barrier_primal_spec(s@), { unimplemented!() }
-    #[verifier::external_body] pub fn barrier_dual(&mut self, z: &[F]) -> (r: F)
-        requires z@.len() == 3, ensures *final(self) == *old(self), r == old(self).barrier_dual_spec(z@), { unimplemented!() }
+//@fn file=src/solver/core/cones/expcone.rs in="Nonsymmetric3DCone<T> for ExponentialCone<T>" name=gradient_primal rules=R1,R2 ret=r
+//@contract
+    requires s@.len() == 3, self.primal_pre(s@),
+    ensures r@ =~= self.gradient_primal_spec(s@),
+//@end
+//@fn file=src/solver/core/cones/expcone.rs in="NonsymmetricCone<T> for ExponentialCone<T>" name=barrier_primal rules=R1,R2 ret=r
+//@contract
+    requires s@.len() == 3, old(self).primal_pre(s@),
+    ensures *final(self) == *old(self), r == old(self).barrier_primal_spec(s@),
+//@end
 
 //@fn file=src/solver/core/cones/expcone.rs in="impl<T> ExponentialCone<T>" name=new rules=R1,R2 ret=r
 //@contract
@@ -367,6 +406,8 @@ impl ExponentialCone<F> {
 //@fn file=src/solver/core/cones/expcone.rs in="Cone<T> for ExponentialCone<T>" name=compute_barrier rules=R1,R2 ret=r
 //@contract
     requires z@.len() == 3, s@.len() == 3, dz@.len() == 3, ds@.len() == 3,
+        // the documented panic of _wright_omega (exponential cone only; `true` for the power cone): see the header, OPEN ITEM 1
+        old(self).primal_pre(shifted3(s@, ds@, alpha)),
     ensures *final(self) == *old(self),
         r == f_add(f_add(f_zero(), old(self).barrier_dual_spec(shifted3(z@, dz@, alpha))), old(self).barrier_primal_spec(shifted3(s@, ds@, alpha))),
 //@after "let cur_s"
@@ -391,6 +432,18 @@ impl ExponentialCone<F> {
 //@pre
     proof { lemma_sym3_table(); }
 //@end
+// the REAL bodies of the callees that are otherwise used through their assumed (uninterpreted-result) contracts, under the part of
+// those contracts that can be proved: no panic for vectors of length 3, and the cone is not modified
+//@fn file=src/solver/core/cones/expcone.rs in="NonsymmetricCone<T> for ExponentialCone<T>" name=higher_correction as=higher_correction_body rules=R1,R2,tupidx
+//@contract
+    requires old(eta)@.len() == 3, ds@.len() == 3, v@.len() == 3,
+    ensures *final(self) == *old(self), final(eta)@.len() == 3,
+//@end
+//@fn file=src/solver/core/cones/expcone.rs in="NonsymmetricCone<T> for ExponentialCone<T>" name=barrier_dual rules=R1,R2 ret=r
+//@contract
+    requires z@.len() == 3,
+    ensures *final(self) == *old(self), r == exp_barrier_dual(z@),
+//@end
 //@fn file=src/solver/core/cones/expcone.rs in="Nonsymmetric3DCone<T> for ExponentialCone<T>" name=split_borrow_mut rules=R1,R2 ret=r
 //@contract
     ensures *r.0 == old(self).H_dual, *r.1 == old(self).Hs, *r.2 == old(self).grad, *r.3 == old(self).z,
@@ -400,6 +453,7 @@ impl ExponentialCone<F> {
 //@fn file=src/solver/core/cones/expcone.rs in="Cone<T> for ExponentialCone<T>" name=update_scaling rules=R1,R2 ret=r
 //@contract
     requires s@.len() == 3, z@.len() == 3,
+        scaling_strategy != ScalingStrategy::Dual ==> old(self).primal_pre(s@),      // as for compute_barrier (gradient_primal(s) is evaluated)
     ensures r,
         // "K.z .= z": the scaling point is remembered
         final(self).z@ == z@,
@@ -467,8 +521,19 @@ pub open spec fn pow_dual_hess(al: F, z: Seq<F>, a: int, b: int) -> F {
 }
 pub uninterp spec fn pow_gradient_primal(al: F, s: Seq<F>) -> Seq<F>;
 pub uninterp spec fn pow_higher_correction(al: F, h: Seq<F>, z: Seq<F>, ds: Seq<F>, v: Seq<F>) -> Seq<F>;
-pub uninterp spec fn pow_barrier_primal(al: F, s: Seq<F>) -> F;
-pub uninterp spec fn pow_barrier_dual(al: F, z: Seq<F>) -> F;
+// Primal barrier (powcone.rs): f(s) = <s, g(s)> - f*(-g(s)) with <s, g(s)> = -3, g = gradient_primal(s):
+//   log((-g0/alpha)^(2 alpha) (-g1/(1-alpha))^(2 - 2 alpha) - g2^2) + (1-alpha) log(-g0) + alpha log(-g1) - 3
+pub open spec fn pow_barrier_primal(al: F, s: Seq<F>) -> F {
+    let g = pow_gradient_primal(al, s);
+    let t1 = logsafe_spec(f_sub(f_mul(f_powf(f_div(f_neg(g[0]), al), f_mul(lit2(), al)), f_powf(f_div(f_neg(g[1]), one_minus(al)), f_sub(lit2(), f_mul(al, lit2())))), f_mul(g[2], g[2])));
+    let t2 = f_mul(one_minus(al), logsafe_spec(f_neg(g[0])));
+    let t3 = f_sub(f_mul(al, logsafe_spec(f_neg(g[1]))), lit3());
+    f_add(f_add(f_add(f_zero(), t1), t2), t3)
+}
+// Dual barrier (powcone.rs): f*(z) = -log((z0/alpha)^(2 alpha) (z1/(1-alpha))^(2(1-alpha)) - z2^2) - (1-alpha) log z0 - alpha log z1
+pub open spec fn pow_barrier_dual(al: F, z: Seq<F>) -> F {
+    f_sub(f_sub(f_neg(logsafe_spec(pow_psi(al, z))), f_mul(one_minus(al), logsafe_spec(z[0]))), f_mul(al, logsafe_spec(z[1])))
+}
 impl PowerCone<F> {
     // ASSUMED callees, as for the exponential cone; they also read the parameter alpha
     pub open spec fn gradient_primal_spec(&self, s: Seq<F>) -> Seq<F> { pow_gradient_primal(self.alpha, s) }
@@ -476,15 +541,19 @@ impl PowerCone<F> {
     pub open spec fn barrier_primal_spec(&self, s: Seq<F>) -> F { pow_barrier_primal(self.alpha, s) }
     pub open spec fn barrier_dual_spec(&self, z: Seq<F>) -> F { pow_barrier_dual(self.alpha, z) }
     pub open spec fn params_eq(&self, o: Self) -> bool { self.alpha == o.alpha }
+    // what gradient_primal / barrier_primal need in order not to hit the documented panic of _wright_omega
+    // gradient_primal is ASSUMED (Newton iteration _newton_raphson_powcone with two closures): no precondition, uninterpreted value
+    pub open spec fn primal_pre(&self, s: Seq<F>) -> bool { true }
     #[verifier::external_body] pub fn gradient_primal(&self, s: &[F]) -> (r: [F; 3])
         requires s@.len() == 3, ensures r@ == self.gradient_primal_spec(s@), { unimplemented!() }
     #[verifier::external_body] pub fn higher_correction(&mut self, eta: &mut [F], ds: &[F], v: &[F])
         requires old(eta)@.len() == 3, ds@.len() == 3, v@.len() == 3,
         ensures *final(self) == *old(self), final(eta)@.len() == 3, final(eta)@ == old(self).higher_correction_spec(ds@, v@), { unimplemented!() }
-    #[verifier::external_body] pub fn barrier_primal(&mut self, s: &[F]) -> (r: F)
-        requires s@.len() == 3, ensures *final(self) == *old(self), r == old(self).barrier_primal_spec(s@), { unimplemented!() }
-    #[verifier::external_body] pub fn barrier_dual(&mut self, z: &[F]) -> (r: F)
-        requires z@.len() == 3, ensures *final(self) == *old(self), r == old(self).barrier_dual_spec(z@), { unimplemented!() }
+//@fn file=src/solver/core/cones/powcone.rs in="NonsymmetricCone<T> for PowerCone<T>" name=barrier_primal rules=R1,R2 ret=r
+//@contract
+    requires s@.len() == 3,
+    ensures *final(self) == *old(self), r == old(self).barrier_primal_spec(s@),
+//@end
 
 //@fn file=src/solver/core/cones/powcone.rs in="impl<T> PowerCone<T>" name=new rules=R1,R2 ret=r
 //@contract
@@ -577,6 +646,8 @@ impl PowerCone<F> {
 //@fn file=src/solver/core/cones/powcone.rs in="Cone<T> for PowerCone<T>" name=compute_barrier rules=R1,R2 ret=r
 //@contract
     requires z@.len() == 3, s@.len() == 3, dz@.len() == 3, ds@.len() == 3,
+        // the documented panic of _wright_omega (exponential cone only; `true` for the power cone): see the header, OPEN ITEM 1
+        old(self).primal_pre(shifted3(s@, ds@, alpha)),
     ensures *final(self) == *old(self),
         r == f_add(f_add(f_zero(), old(self).barrier_dual_spec(shifted3(z@, dz@, alpha))), old(self).barrier_primal_spec(shifted3(s@, ds@, alpha))),
 //@after "let cur_s"
@@ -601,6 +672,18 @@ impl PowerCone<F> {
 //@pre
     proof { lemma_sym3_table(); }
 //@end
+// the REAL bodies of the callees that are otherwise used through their assumed (uninterpreted-result) contracts, under the part of
+// those contracts that can be proved: no panic for vectors of length 3, and the cone is not modified
+//@fn file=src/solver/core/cones/powcone.rs in="NonsymmetricCone<T> for PowerCone<T>" name=higher_correction as=higher_correction_body rules=R1,R2,tupidx
+//@contract
+    requires old(eta)@.len() == 3, ds@.len() == 3, v@.len() == 3,
+    ensures *final(self) == *old(self), final(eta)@.len() == 3,
+//@end
+//@fn file=src/solver/core/cones/powcone.rs in="NonsymmetricCone<T> for PowerCone<T>" name=barrier_dual rules=R1,R2 ret=r
+//@contract
+    requires z@.len() == 3,
+    ensures *final(self) == *old(self), r == pow_barrier_dual(old(self).alpha, z@),
+//@end
 //@fn file=src/solver/core/cones/powcone.rs in="Nonsymmetric3DCone<T> for PowerCone<T>" name=split_borrow_mut rules=R1,R2 ret=r
 //@contract
     ensures *r.0 == old(self).H_dual, *r.1 == old(self).Hs, *r.2 == old(self).grad, *r.3 == old(self).z,
@@ -611,6 +694,7 @@ impl PowerCone<F> {
 //@fn file=src/solver/core/cones/powcone.rs in="Cone<T> for PowerCone<T>" name=update_scaling rules=R1,R2 ret=r
 //@contract
     requires s@.len() == 3, z@.len() == 3,
+        scaling_strategy != ScalingStrategy::Dual ==> old(self).primal_pre(s@),      // as for compute_barrier (gradient_primal(s) is evaluated)
     ensures r,
         // "K.z .= z": the scaling point is remembered
         final(self).z@ == z@,
@@ -850,6 +934,66 @@ F
 //@after "work.waxpby(F::one(), z, alpha, dz);"
         proof { assert(work@ =~= shifted(z@, dz@, alpha)); }
 //@end
+}
+
+// ------------------------------------------------------------------ F-real readings (exact reals) of the contracts above
+pub open spec fn imin(a: int, b: int) -> int { if a <= b { a } else { b } }
+pub open spec fn imax(a: int, b: int) -> int { if a >= b { a } else { b } }
+// C11: the dense block get_Hs writes into the KKT matrix (packed upper triangle `blk`, entry (r, c) at tri(c) + r) is the operator
+// mul_Hs applies: y_i = sum_j M(i, j) x_j with M the symmetric matrix whose upper triangle is the block
+pub proof fn lemma_Hs_block_is_operator(d: Seq<F>, blk: Seq<F>, x: Seq<F>, y: Seq<F>, i: int)
+    requires d.len() == 6, blk.len() == 6, x.len() == 3, y.len() == 3, 0 <= i < 3,
+        forall|r: int, c: int| 0 <= r <= c < 3 ==> #[trigger] blk[tri(c) + r] == m3(d, r, c),      // get_Hs
+        forall|k: int| 0 <= k < 3 ==> #[trigger] y[k] == m3_rowdot(d, k, x),                        // mul_Hs
+    ensures y[i].v() == blk[tri(imax(i, 0)) + imin(i, 0)].v() * x[0].v() + blk[tri(imax(i, 1)) + imin(i, 1)].v() * x[1].v()
+                      + blk[tri(imax(i, 2)) + imin(i, 2)].v() * x[2].v(),
+{
+    broadcast use real_arith;
+    lemma_sym3_table();
+    assert(y[i] == m3_rowdot(d, i, x));
+    assert forall|j: int| 0 <= j < 3 implies blk[tri(imax(i, j)) + imin(i, j)] == m3(d, i, j) by {
+        assert(blk[tri(imax(i, j)) + imin(i, j)] == m3(d, imin(i, j), imax(i, j)));
+        assert(sym3_idx(imin(i, j), imax(i, j)) == sym3_idx(i, j));
+    }
+}
+// C07: the second entry of the power-cone central point, sqrt(1 + (1 - alpha)), is the documented sqrt(2 - alpha)
+pub proof fn lemma_pow_central_real(al: F)
+    ensures f_add(f_one(), al).v() == 1real + al.v(), f_add(f_one(), one_minus(al)).v() == 2real - al.v(),
+{ broadcast use real_arith; }
+// C04 (OPEN ITEM 1, exact-arithmetic half): a point the primal-cone test of the exponential cone accepts never reaches the panic of
+// _wright_omega: 1 - s0/s1 - log(s1/s2) > 1.  ASSUMED (local block `ln_ax`, ADMITTED, used ONLY by this lemma): log is a function of the real
+// value and log(1/x) = -log(x) for x > 0.  canary_ln must FAIL.
+pub uninterp spec fn rln(x: real) -> real;
+pub mod ln_ax {
+    use super::*;
+    pub broadcast proof fn ax_ln_real(a: F) ensures (#[trigger] f_ln(a)).v() == rln(a.v()) { admit(); }
+    pub broadcast proof fn ax_rln_recip(x: real) requires x > 0real ensures #[trigger] rln(1real / x) == -rln(x) { admit(); }
+    pub broadcast group real_ln { ax_ln_real, ax_rln_recip }
+}
+pub use ln_ax::*;
+pub proof fn canary_ln() ensures false { broadcast use real_arith, real_ln; }
+pub proof fn lemma_exp_primal_accept_no_panic(s: Seq<F>)
+    requires s.len() == 3, exp_in_primal(s),
+    ensures exp_omega_arg(s).v() > 1real, !f_lt(exp_omega_arg(s), f_zero()),
+{
+    broadcast use real_arith, real_ln;
+    let s0 = s[0].v(); let s1 = s[1].v(); let s2 = s[2].v();
+    assert(s1 > 0real && s2 > 0real);
+    let q = s2 / s1;
+    assert(q > 0real) by(nonlinear_arith) requires s1 > 0real, s2 > 0real, q == s2 / s1;
+    assert(s1 / s2 == 1real / q) by(nonlinear_arith) requires s1 > 0real, s2 > 0real, q == s2 / s1;
+    assert(s1 / s2 > 0real) by(nonlinear_arith) requires s1 > 0real, s2 > 0real;
+    assert(f_div(s[2], s[1]).v() == q);
+    assert(f_div(s[1], s[2]).v() == 1real / q);
+    assert(!f_le(f_div(s[2], s[1]), f_zero()));
+    assert(!f_le(f_div(s[1], s[2]), f_zero()));
+    let l = rln(q);
+    assert(logsafe_spec(f_div(s[2], s[1])).v() == l);
+    assert(logsafe_spec(f_div(s[1], s[2])).v() == -l);
+    assert(s1 * l - s0 > 0real);
+    assert(f_div(s[0], s[1]).v() == s0 / s1);
+    assert(l > s0 / s1) by(nonlinear_arith) requires s1 * l - s0 > 0real, s1 > 0real;
+    assert(exp_omega_arg(s).v() == 1real - s0 / s1 - (-l));
 }
 
 } // verus!
